@@ -148,6 +148,7 @@ func (x *Exec) rangeStart(v Val) Val {
 	if m == nil {
 		return it
 	}
+	x.forceKeys(m)
 	keys := append([]Val{}, m.Keys...)
 	vals := append([]Val{}, m.Vals...)
 	if m.Doc && len(keys) > 1 && !x.inHarness() && x.job.MapOrders {
@@ -171,6 +172,41 @@ func (x *Exec) inHarness() bool {
 }
 
 func (x *Exec) typeAssert(v Iface, at types.Type, commaOk bool) Val {
+	if v.L != nil && !v.L.done {
+		// ask only what the code asks: "is this node of that one kind?"
+		if types.IsInterface(at) {
+			if at.Underlying().(*types.Interface).NumMethods() == 0 {
+				if x.lazyIs(v.L, kNull) {
+					v = Iface{}
+				}
+			} else {
+				// no JSON value implements a non-empty interface
+				if commaOk {
+					return Tuple{x.zero(at), Bool{C: false}}
+				}
+				x.fail("type-assert", "")
+			}
+		} else if k := jsonKindOfType(at); k >= 0 {
+			if !x.lazyIs(v.L, k) {
+				if commaOk {
+					return Tuple{x.zero(at), Bool{C: false}}
+				}
+				x.fail("type-assert", "")
+			}
+		} else {
+			if commaOk {
+				return Tuple{x.zero(at), Bool{C: false}}
+			}
+			x.fail("type-assert", "")
+		}
+	}
+	if v.L != nil && !v.L.done {
+		// non-nil, asserted to the empty interface: stays lazy
+		if commaOk {
+			return Tuple{v, Bool{C: true}}
+		}
+		return v
+	}
 	v = x.resolve(v)
 	ok := false
 	if v.T != nil {
@@ -448,6 +484,7 @@ func (x *Exec) builtin(b *ssa.Builtin, args []Val, c *ssa.CallCommon) Val {
 			if a == nil {
 				return mkInt(0)
 			}
+			x.forceKeys(a)
 			return mkInt(int64(len(a.Keys)))
 		}
 	case "cap":
